@@ -564,6 +564,30 @@ def gen_EngineCpp(repo):
     L.append("def engineGlobals : List (String × String) := %s\n" %
              lean_list(["(%s, %s)" % (lean_str(a), lean_str(b.strip())) for a, b in gl]))
 
+    # ---- index formulas of the flattened tables the algorithms read (must agree across all read sites)
+    def table_formula(vec, names, files):
+        forms = set()
+        for fname in files:
+            for name, expr in _subscripts(_cpp(repo, fname)):
+                if name == vec:
+                    forms.add(CppExpr(expr, names).parse())
+        if len(forms) != 1:
+            raise AnchorLost("index formula of %s is not unique across its read sites: %s" % (vec, sorted(forms)))
+        return forms.pop()
+    algo_files = ["SimulationAlgorithm3DBase.hpp", "SimulationAlgorithmGraphBase.hpp", "Euler3D.hpp", "EulerGraph.hpp",
+                  "TauLeap3D.hpp", "TauLeapGraph.hpp", "Gillespie3D.hpp", "GillespieGraph.hpp"]
+    nm3 = {"mesh_env[i]": "e", "mesh_env[j]": "e", "n_reactions": "nr", "n_species": "ns", "n_env": "ne", "r": "r", "s": "s",
+           "j": "s", "reaction_index": "r", "i": "i", "mesh_index": "i", "species_index": "s", "n": "n", "direction": "n"}
+    L.append("/-- flattened-table index formulas as read by the algorithms (identical at every read site) -/")
+    L.append("def kIndex (nr e r : Int) : Int := %s" % table_formula("k", nm3, algo_files))
+    L.append("def subIndex (nr s r : Int) : Int := %s" % table_formula("sub", nm3, algo_files))
+    nm_sto = dict(nm3)
+    L.append("def stoIndex (nr s r : Int) : Int := %s" % table_formula("sto", nm_sto, algo_files))
+    L.append("def dIndex (ne s e : Int) : Int := %s" % table_formula("D", nm3, algo_files))
+    L.append("def krIndex (nr i r : Int) : Int := %s" % table_formula("mesh_kr", nm3, algo_files))
+    L.append("def kdIndexGrid (ns i s n : Int) : Int := %s" % table_formula("mesh_kd", nm3, ["SimulationAlgorithm3DBase.hpp"]))
+    L.append("")
+
     # ---- subscript inventory (G5): every vec[expr] in every engine source file
     inv = []
     for fname in ("SimulationAlgorithm3DBase.hpp", "SimulationAlgorithmGraphBase.hpp", "Euler3D.hpp", "EulerGraph.hpp",
